@@ -9,7 +9,7 @@ trap 'rm -rf "$scratch"' EXIT
 mkdir -p "$scratch/src"
 cp -r /repo/src/joserfc "$scratch/src/joserfc"
 if ! patch -s -p1 -d "$scratch" < "$patch_file"; then echo "PATCH-FAILED $patch_file"; exit 3; fi
-cd /verif
+cd "$(dirname "$(readlink -f "$0")")/.."
 rc_all=0
 for p in "$@"; do
   out="$(JOSERFC_SRC="$scratch/src" ./check "$p" --tier "${TIER:-quick}" --no-evidence ${BUDGET:+--budget $BUDGET} 2>&1)"
